@@ -643,7 +643,18 @@ func GuardEdges(fn *ssa.Function, atom Atom) (pass map[Edge]bool, ifs []*ssa.If)
 		if !ok {
 			continue
 		}
-		if m, onTrue := atom(ifi.Cond); m {
+		m, onTrue := atom(ifi.Cond)
+		if !m {
+			// the same test written the other way round: complemented operator (pass edge exchanged) and/or
+			// exchanged operands
+			for _, v := range condVariants(ifi.Cond) {
+				if m2, onTrue2 := atom(v.cond); m2 {
+					m, onTrue = true, onTrue2 != v.complemented
+					break
+				}
+			}
+		}
+		if m {
 			if onTrue {
 				pass[Edge{b, 0}] = true
 			} else {
@@ -653,6 +664,47 @@ func GuardEdges(fn *ssa.Function, atom Atom) (pass map[Edge]bool, ifs []*ssa.If)
 		}
 	}
 	return
+}
+
+type condVariant struct {
+	cond         ssa.Value
+	complemented bool // the variant is true exactly when the original condition is false
+}
+
+// condVariants builds equivalent spellings of a comparison as synthetic (unattached) BinOps: x == y / x != y,
+// and for operands that are not floating point x < y / x >= y etc., each also with exchanged operands.
+// Atoms only look at Op, X and Y of a condition, which is all these carry.
+func condVariants(cond ssa.Value) []condVariant {
+	base, neg := StripNot(cond)
+	b, ok := base.(*ssa.BinOp)
+	if !ok {
+		return nil
+	}
+	complement := map[token.Token]token.Token{token.EQL: token.NEQ, token.NEQ: token.EQL, token.LSS: token.GEQ, token.GEQ: token.LSS, token.GTR: token.LEQ, token.LEQ: token.GTR}
+	mirror := map[token.Token]token.Token{token.EQL: token.EQL, token.NEQ: token.NEQ, token.LSS: token.GTR, token.GTR: token.LSS, token.LEQ: token.GEQ, token.GEQ: token.LEQ}
+	if _, isCmp := complement[b.Op]; !isCmp {
+		return nil
+	}
+	ordered := b.Op != token.EQL && b.Op != token.NEQ
+	if ordered {
+		if bt, isB := b.X.Type().Underlying().(*types.Basic); !isB || bt.Info()&types.IsFloat != 0 {
+			// !(x < y) is not x >= y for NaN: only the operand exchange is offered
+			return []condVariant{{&ssa.BinOp{Op: mirror[b.Op], X: b.Y, Y: b.X}, neg}}
+		}
+	}
+	var out []condVariant
+	// written without the leading negation
+	op := b.Op
+	if neg {
+		op = complement[op]
+		out = append(out, condVariant{&ssa.BinOp{Op: op, X: b.X, Y: b.Y}, false})
+	}
+	out = append(out,
+		condVariant{&ssa.BinOp{Op: mirror[op], X: b.Y, Y: b.X}, false},
+		condVariant{&ssa.BinOp{Op: complement[op], X: b.X, Y: b.Y}, true},
+		condVariant{&ssa.BinOp{Op: mirror[complement[op]], X: b.Y, Y: b.X}, true},
+	)
+	return out
 }
 
 // MustPass reports whether every path from fn's entry to block sink crosses a pass edge of an If
